@@ -4,6 +4,7 @@ import (
 	"fmt"
 	"go/token"
 	"go/types"
+	"sort"
 	"strings"
 
 	"golang.org/x/tools/go/ssa"
@@ -350,4 +351,339 @@ func derefType(t types.Type) types.Type {
 		return p.Elem()
 	}
 	return t
+}
+
+// whoInterpretsAnElision (C04-R15): what a "..." stands for, how the run it
+// skipped is recorded and how it is reproduced is defined per construct — the
+// three list types (through the elision tests handed to compileSliceDots,
+// which the rules R2–R7 decide), the header of a `for ...` (R8) and the
+// implicit elision around a statement list (R9). So in package engine a
+// *pgo.Dots node is recognised (by a type assertion or a type switch) only
+//
+//   - in a function handed to compileSliceDots as its elision test,
+//   - in compileForStmt of either compiler or a private helper of it,
+//   - in the helper group of the functions that create the implicit elision.
+//
+// A further place that interprets "..." is a further elision construct, for
+// which none of the rules of this property speaks (does it reproduce what it
+// skipped? on both sides?): it is reported for review.
+func whoInterpretsAnElision(r *an.Run, rule string) {
+	r.Rule(rule)
+	isDotsType := func(t types.Type) bool {
+		if p, ok := t.(*types.Pointer); ok {
+			t = p.Elem()
+		}
+		return an.IsNamed(t, an.Module+"/internal/pgo", "Dots")
+	}
+	allowed := map[*ssa.Function]string{}
+	fns := r.P.PkgFuncs(engine)
+	for _, f := range fns {
+		for _, c := range an.Calls(f) {
+			if !strings.HasSuffix(an.CalleeName(c), "compileSliceDots") || len(c.Common().Args) == 0 {
+				continue
+			}
+			last := c.Common().Args[len(c.Common().Args)-1]
+			for {
+				if ct, ok := last.(*ssa.ChangeType); ok {
+					last = ct.X
+					continue
+				}
+				break
+			}
+			switch v := last.(type) {
+			case *ssa.Function:
+				allowed[v] = "elision test of a list type"
+			case *ssa.MakeClosure:
+				if g, ok := v.Fn.(*ssa.Function); ok {
+					allowed[g] = "elision test of a list type"
+				}
+			}
+		}
+	}
+	for _, name := range []string{"matcherCompiler.compileForStmt", "replacerCompiler.compileForStmt"} {
+		if f := r.P.Func(engine, name); f != nil {
+			for _, g := range helperGroup(f, 2) {
+				if _, ok := allowed[g]; !ok {
+					allowed[g] = "header test of for ..."
+				}
+			}
+		}
+	}
+	// the implicit elision: whoever creates a Dots node, and the helper group of its callers
+	for _, f := range fns {
+		creates := false
+		for _, b := range f.Blocks {
+			for _, in := range b.Instrs {
+				if al, ok := in.(*ssa.Alloc); ok && isDotsType(al.Type().Underlying().(*types.Pointer).Elem()) {
+					creates = true
+				}
+			}
+		}
+		if !creates {
+			continue
+		}
+		allowed[f] = "creates the implicit elision"
+		for _, c := range r.P.CallersOf(f) {
+			for _, g := range helperGroup(c.Parent(), 1) {
+				if _, ok := allowed[g]; !ok {
+					allowed[g] = "implicit elision of a statement list"
+				}
+			}
+		}
+	}
+	n := 0
+	for _, f := range fns {
+		seenHere := false
+		for _, b := range f.Blocks {
+			for _, in := range b.Instrs {
+				ta, ok := in.(*ssa.TypeAssert)
+				if !ok || !isDotsType(ta.AssertedType) {
+					continue
+				}
+				n++
+				root := f
+				for root.Parent() != nil && allowed[root] == "" {
+					root = root.Parent()
+				}
+				if why := allowed[root]; why != "" {
+					if !seenHere {
+						seenHere = true
+						r.Pass(short(f)+"|interprets-dots", ta.Pos(), "%s recognises a \"...\" node: %s", short(f), why)
+					}
+					continue
+				}
+				r.Fail(short(f)+"|interprets-dots", ta.Pos(), "%s recognises a \"...\" node, but it is neither an elision test handed to compileSliceDots, nor part of compileForStmt, nor of the implicit statement-list elision: a further construct gives \"...\" a meaning that none of the elision rules decides (is the skipped run recorded and reproduced unchanged, on every '+' shape?)", short(f))
+			}
+		}
+	}
+	r.Count("places that recognise an elision node", n)
+	r.Min("places that recognise an elision node", 8)
+}
+
+// noRecursionInTheFrontEnd (C08-R15): recursion in gopatch is structural
+// descent over a finite syntax tree or a finite chain (the compilers and
+// matchers of package engine, the parsers, the differs, the data chain). The
+// front end — package main, the library API, the section splitter and the
+// small helper packages — has none: file discovery walks the file system with
+// filepath.Walk, which does not follow links, and everything else is loops
+// (decided by R1). A cycle in the call graph of those packages (static calls,
+// function literals, functions passed as values) is recursion whose depth is
+// bounded by the input's *content* — a directory that is reachable from itself
+// through two links — not by a tree: it is reported.
+func noRecursionInTheFrontEnd(r *an.Run, rule string) {
+	r.Rule(rule)
+	front := func(f *ssa.Function) bool {
+		rel := strings.TrimPrefix(strings.TrimPrefix(an.FuncPkgPath(f), an.Module), "/")
+		switch rel {
+		case "", "patch", "internal/parse/section", "internal/text":
+			return true
+		}
+		return !architecturePackages[rel]
+	}
+	succs := map[*ssa.Function][]*ssa.Function{}
+	var nodes []*ssa.Function
+	for _, f := range r.P.ModuleFuncs() {
+		if !front(f) || f.Blocks == nil {
+			continue
+		}
+		nodes = append(nodes, f)
+		seen := map[*ssa.Function]bool{}
+		for _, b := range f.Blocks {
+			for _, in := range b.Instrs {
+				for _, op := range in.Operands(nil) {
+					var g *ssa.Function
+					switch v := (*op).(type) {
+					case *ssa.Function:
+						g = v
+					case *ssa.MakeClosure:
+						g, _ = v.Fn.(*ssa.Function)
+					}
+					if g != nil && an.InModule(g) && front(g) && !seen[g] {
+						seen[g] = true
+						succs[f] = append(succs[f], g)
+					}
+				}
+			}
+		}
+	}
+	// Tarjan
+	index, low := map[*ssa.Function]int{}, map[*ssa.Function]int{}
+	onStack := map[*ssa.Function]bool{}
+	var stack []*ssa.Function
+	next := 0
+	var sccs [][]*ssa.Function
+	var strong func(v *ssa.Function)
+	strong = func(v *ssa.Function) {
+		next++
+		index[v], low[v] = next, next
+		stack = append(stack, v)
+		onStack[v] = true
+		for _, w := range succs[v] {
+			if index[w] == 0 {
+				strong(w)
+				if low[w] < low[v] {
+					low[v] = low[w]
+				}
+			} else if onStack[w] && index[w] < low[v] {
+				low[v] = index[w]
+			}
+		}
+		if low[v] == index[v] {
+			var comp []*ssa.Function
+			for {
+				w := stack[len(stack)-1]
+				stack = stack[:len(stack)-1]
+				onStack[w] = false
+				comp = append(comp, w)
+				if w == v {
+					break
+				}
+			}
+			sccs = append(sccs, comp)
+		}
+	}
+	for _, f := range nodes {
+		if index[f] == 0 {
+			strong(f)
+		}
+	}
+	bad := 0
+	for _, comp := range sccs {
+		self := false
+		if len(comp) == 1 {
+			for _, w := range succs[comp[0]] {
+				if w == comp[0] {
+					self = true
+				}
+			}
+			if !self {
+				continue
+			}
+		}
+		bad++
+		var names []string
+		for _, f := range comp {
+			names = append(names, short(f))
+		}
+		sort.Strings(names)
+		r.Fail("recursion|"+names[0], comp[len(comp)-1].Pos(), "recursion in the front end: %s call each other (directly, or through a function value handed to a library walker); its depth is bounded by what the arguments contain, not by a finite tree — directories that link to each other make it run until the stack or the memory is exhausted", strings.Join(names, ", "))
+	}
+	r.Count("front-end functions in the recursion check", len(nodes))
+	r.Min("front-end functions in the recursion check", 30)
+	if bad == 0 {
+		r.Pass("no-recursion-in-the-front-end", 0, "%d functions of package main, the library API, the section splitter and internal/text: their call graph (static calls, function literals, function values) has no cycle", len(nodes))
+	}
+}
+
+// bothSidesSeeTheSameDeclarations: compileChange hands the two compilers of a
+// change the same declaration table — the very value compileMeta returned for
+// the change's @@ section. With a table of its own (filtered, extended,
+// defaulted) one side would read a name as a metavariable that the other side
+// reads as code: an unbound metavariable would be emitted under the spelling
+// it happens to have in the patch.
+func bothSidesSeeTheSameDeclarations(r *an.Run, rule string) {
+	r.Rule(rule)
+	f := fn(r, engine, "compiler.compileChange")
+	if f == nil {
+		return
+	}
+	var metas []ssa.Value
+	var sites []ssa.CallInstruction
+	for _, c := range an.Calls(f) {
+		sc := an.StaticCallee(c)
+		if sc == nil || !an.InModule(sc) || sc.Signature.Results().Len() != 1 {
+			continue
+		}
+		rt := an.ShortType(sc.Signature.Results().At(0).Type())
+		if !strings.HasSuffix(rt, "engine.matcherCompiler") && !strings.HasSuffix(rt, "engine.replacerCompiler") {
+			continue
+		}
+		for _, a := range c.Common().Args {
+			if strings.HasSuffix(an.ShortType(a.Type()), "engine.Meta") {
+				metas = append(metas, a)
+				sites = append(sites, c)
+			}
+		}
+	}
+	if !r.Check(len(metas) == 2, short(f)+"|two-compilers", f.Pos(), "compileChange creates a matcher compiler and a replacer compiler, each with a declaration table (found %d)", len(metas)) {
+		return
+	}
+	fromCompileMeta := false
+	if c, ok := metas[0].(*ssa.Call); ok {
+		if sc := an.StaticCallee(c); sc != nil && strings.HasSuffix(short(sc), "compileMeta") {
+			fromCompileMeta = true
+		}
+	}
+	r.Check(metas[0] == metas[1], short(f)+"|same-table", sites[1].Pos(), "both compilers of a change are given the same declaration table (the matcher compiler gets %s, the replacer compiler %s)", an.Describe(metas[0]), an.Describe(metas[1]))
+	r.Check(fromCompileMeta, short(f)+"|table-is-the-changes-own", sites[0].Pos(), "that table is what compileMeta made of the change's own @@ section")
+}
+
+// snapshotKnowsTheComments (C17-R10): the regions astdiff reports for a
+// rewritten element stop at the comments of its neighbours only because the
+// snapshot was taken with the file's comment map. So in both pipelines the map
+// handed to astdiff.Before is, on every path, the result of ast.NewCommentMap
+// for that very file and its own comment list — never nil, never a map kept
+// from elsewhere (a size cap that skips the map widens every region to the
+// neighbours themselves: their trailing and doc comments are deleted).
+func snapshotKnowsTheComments(r *an.Run, rule string) {
+	r.Rule(rule)
+	n := 0
+	for _, name := range [][2]string{{mainP, "patchRunner.Apply"}, {patchP, "File.Apply"}} {
+		f := fn(r, name[0], name[1])
+		if f == nil {
+			continue
+		}
+		var before ssa.CallInstruction
+		for _, g := range helperGroup(f, 2) {
+			for _, c := range an.Calls(g) {
+				if sc := an.StaticCallee(c); sc != nil && short(sc) == "internal/astdiff.Before" {
+					before = c
+				}
+			}
+		}
+		if !r.Check(before != nil, short(f)+"|snapshot", f.Pos(), "%s takes an astdiff snapshot of the file before the first change", short(f)) {
+			continue
+		}
+		n++
+		file, cmap := before.Common().Args[0], before.Common().Args[1]
+		if mi, ok := file.(*ssa.MakeInterface); ok {
+			file = mi.X
+		}
+		good := true
+		why := ""
+		for _, leaf := range phiLeaves(cmap) {
+			c, ok := leaf.(*ssa.Call)
+			if !ok || !an.IsCallTo(c, "go/ast.NewCommentMap") {
+				good, why = false, "got "+an.Describe(leaf)
+				continue
+			}
+			// NewCommentMap(fset, node, comments): node is the file, comments its own list
+			if c.Call.Args[1] != ssa.Value(mustMakeInterfaceOf(c.Call.Args[1], file)) {
+				good, why = false, "the map is built for another node"
+			}
+			own := false
+			if ld, ok := c.Call.Args[2].(*ssa.UnOp); ok && ld.Op == token.MUL {
+				if fa, ok := ld.X.(*ssa.FieldAddr); ok && fa.X == file && fieldNameOf(fa) == "Comments" {
+					own = true
+				}
+			}
+			if !own {
+				good, why = false, "the map is built from "+an.Describe(c.Call.Args[2])
+			}
+		}
+		r.Check(good, short(f)+"|snapshot-has-the-comment-map", before.Pos(), "the snapshot is taken with ast.NewCommentMap(fset, file, file.Comments) of the file being patched, on every path %s", why)
+	}
+	r.Count("snapshots with a comment map", n)
+	r.Min("snapshots with a comment map", 2)
+}
+
+// mustMakeInterfaceOf returns v when v is file converted to an interface (or file itself), nil otherwise.
+func mustMakeInterfaceOf(v, file ssa.Value) ssa.Value {
+	if v == file {
+		return v
+	}
+	if mi, ok := v.(*ssa.MakeInterface); ok && mi.X == file {
+		return v
+	}
+	return nil
 }
